@@ -19,11 +19,11 @@ SAMPLING = "sampling, not enumeration; the reference model covers the value/oper
 CHECKS = {
  "C01": ("exploration", "9.1",
    "seeded histories of driver calls (CRUD, bulk, upsert, find-one-and-modify, index and drop calls, sleeps, clean restarts on the simulated disk) executed against the instrumented current tree with the expiry goroutine alive; every call's result and the full contents/index definitions of every collection are compared with an independent sequential reference model after every call and after every restart; 5 % of the calls repeat the previous call verbatim, a tenth of the runs seed a collection of 13-40 documents with ties under every sort key, decoded results are copied and then scribbled over in place",
-   SAMPLING + "fault-free configuration (one client), so the schedule dimension is the client vs. the engine's expiry goroutine only",
+   SAMPLING + "fault-free configuration (one client), so the schedule dimension is the client vs. the engine's expiry goroutine only; projections carry at most one $slice or $elemMatch; documents are handed over by value or by pointer and overwritten by the caller afterwards",
    "deterministic simulation: seeded call histories vs. executable reference model, checked call by call"),
  "C02": ("exploration", "9.2",
    "histories biased towards writes that fail part-way (k-th matched document, k-th batch item, index builds over conflicting data, injected store failures before/after persisting); after a failing single-item call the byte dump of every namespace incl. change log and index contents must equal the dump before; batches must equal the model's 'exactly the successful items' and grow the change log by exactly that many events; 15 % of the update calls use operators outside the model's domain ($push modifiers, $pullAll, $bit, positional operators with array filters, numeric index paths) and are judged by the before/after dump alone; session transactions whose bodies contain failing calls (also failing upserts into collections that do not exist yet) and then commit or abort, scripted engine-level transactions (Begin, Transaction.* steps, Commit) in which the transaction's catalog must be byte-identical after every failing step, and 30 % of the runs with second-scale retention ages and idle periods (a failing call may not trim the change log either)",
-   SAMPLING + "store faults are injected at the Store seam",
+   SAMPLING + "store faults are injected at the Store seam; index calls inside a session transaction and documents with an array _id inside an engine-level transaction are judged without the model (refused: no trace; accepted: follows)",
    "deterministic simulation: generated failing writes + store fault injection, before/after byte dumps and reference model"),
  "C03": ("exploration", "9.3",
    "2-4 client tasks running single calls, session transactions (commit / abort / end / failing store) and structural churn (index builds and drops, collection drops, documents with embedded documents and arrays of documents updated through array positions) under the seeded scheduler (18 % of the runs with statement-level scheduling points in the engine / session / stream / transaction code), plus a snapshot task that takes Engine.Catalog() pointers, read-only transactions and un-iterated cursors at seeded moments; oracles: the commit-order replay of C04 (an aborted or failed transaction leaves no trace, a committed one appears at once) and byte dumps of every snapshot and of every committed catalog, which must stay identical through the old handle whatever commits later; cursors must return the documents of one committed state of their creation window; readers also sort, project (nested exclusions) and collect distinct values; a fifth of the runs let all tasks advance one cursor (successful Next calls = size of its snapshot); cursors opened in the middle of a transaction body are read at its end; a transaction that acknowledged its commit must have made one",
@@ -35,7 +35,7 @@ CHECKS = {
    "deterministic simulation: PRNG scheduler (random / PCT / sticky / non-preemptive) down to statement granularity, store latency and error injection, commit-order replay + porcupine linearizability check"),
  "C05": ("fault_enumeration", "9.5",
    "engine on the real FileStore over the simulated disk (volatile vs durable state, numbered fault points at every open/write/sync/rename/dir-sync/remove); for each sampled history of 1-8 commits the sweep places one fault at every commit x every fault point x {kill before effect, kill after effect} x power-loss outcomes (subsets of pending directory operations, torn/zeroed/old data blocks) x every applicable errno incl. short writes; after a kill a fresh engine must load, and the loaded dump must be the last acknowledged state or the state of the commit in flight, never garbage or a mixture; after an error the call fails, the visible state is the old one, and the next write must reach its commit (a later call that runs into the writer-slot timeout is a violation)",
-   "fault points are enumerated exhaustively per sampled history (thorough: half of the budget; quick: a third), histories themselves are sampled; power-loss outcomes are enumerated up to 6 pending items and sampled beyond; the simulated disk follows the POSIX-style model of DESIGN.md 3.4",
+   "fault points are enumerated exhaustively per sampled history (thorough: half of the budget; quick: a third), histories themselves are sampled; power-loss outcomes are enumerated up to 6 pending items and sampled beyond; the simulated disk follows the POSIX-style model of DESIGN.md 3.4; error numbers incl. ENOENT on open/rename; a fifth of the sampled histories add retention by age, an idle period and a disk-full period (every open/write fails with ENOSPC)",
    "deterministic simulation: simulated disk with crash / power-loss / errno injection, enumerated per history, old-or-new oracle over the recorded commit history"),
  "C06": ("exploration", "9.6",
    "histories over the rich value pool (all BSON types of DESIGN.md section 8, all index option combinations) on the file store with clean restarts at seeded points: close the engine, open a new one on the same simulated disk with process-fresh globals, continue against the same model; oracle: byte dump of every namespace (documents in natural order, index name/key/unique/partial/expiry, index order, whole change log) before close vs. after open, plus enforcement probes per unique index (incl. _id) on both sides; half of the runs use second-scale retention ages with sleeps so that commits trim the change log before a restart; the reopened catalog is also compared with the reference model",
@@ -67,7 +67,7 @@ CHECKS = {
    "deterministic simulation: PRNG scheduler over the shared bucket, simulated reader / writer / store faults, in-memory reference reader and stored-document invariants"),
  "C19": ("exploration", "9.19",
    "histories of writes and TTL index management (several TTL indexes per collection, zero and large expiry, date / non-date / array values, partial filters) while simulated time advances and the engine's real expiry loop runs on the simulated ticker; every commit made by the loop (or by a direct Transaction.Expire) is judged against the model: it removes every document a TTL index makes expired at that moment, nothing else, logs a delete event for each and leaves other data and index definitions alone; at the end, after two more intervals, nothing that was clearly expired may be left; a failing pass must not stop the loop; file-backed runs close and reopen the engine, after which the TTL definitions must still be the model's; expiry on a compound key must be refused",
-   SAMPLING + "documents within 2 ms of the expiry boundary may or may not be removed by a pass",
+   SAMPLING + "documents within 2 ms of the expiry boundary may or may not be removed by a pass; when the client steps the wall clock at the very instant of a pass, the pass is judged against both readings",
    "deterministic simulation: simulated clock drives the real expiry goroutine, per-commit oracle against the reference model"),
 }
 
